@@ -113,6 +113,14 @@ pub fn model_step(l: L, cur: u128, hist: &[u128], wop: u16, x: u128, y: u128, s:
                 Step::Val((cur << amt) & m, false)
             }
         }
+        W_SUM | W_PRODUCT if y & 2 != 0 => {
+            // empty iterator: 0, respectively 1 modulo 2^w
+            if wop == W_SUM {
+                Step::Val(0, false)
+            } else {
+                val(Big::pow2(f))
+            }
+        }
         W_SUM => {
             let mut acc = Big::zero();
             let mut ovf = false;
